@@ -42,6 +42,7 @@ type State struct {
 	names  map[string]int
 	tm     []int
 	locks  map[int]int // lock monitor: object id -> hold count
+	lastNow *Term      // last value returned by time.Now on this path
 }
 
 type oblKind int
@@ -205,7 +206,7 @@ func (e *Engine) poisonPath(st *State, why string) {
 }
 
 func cloneState(st *State) *State {
-	n := &State{heap: make(map[int]cell, len(st.heap)+8), pc: append([]*Term(nil), st.pc...)}
+	n := &State{heap: make(map[int]cell, len(st.heap)+8), pc: append([]*Term(nil), st.pc...), lastNow: st.lastNow}
 	for k, v := range st.heap {
 		n.heap[k] = v
 	}
@@ -732,6 +733,11 @@ func (e *Engine) exec(st *State, f *Frame, in ssa.Instruction) (action, []*State
 			break
 		}
 		it, _ := scalarOf(iv)
+		if u, ok := base.(Union); ok {
+			if _, isConst := x.X.(*ssa.Const); !isConst {
+				return actAgain, e.splitOn(st, f, x.X, u)
+			}
+		}
 		idx := b.Resize(it, 64, isSigned(x.Index.Type()))
 		switch bv := base.(type) {
 		case ArrayV:
@@ -1027,6 +1033,18 @@ func (e *Engine) execBinOp(st *State, f *Frame, x *ssa.BinOp) (action, []*State)
 	if p, ok := e.poisonOperand(a, c); ok {
 		f.locals[x] = p
 		return actNext, nil
+	}
+	if x.Op != token.EQL && x.Op != token.NEQ {
+		if u, ok := a.(Union); ok {
+			if _, isConst := x.X.(*ssa.Const); !isConst {
+				return actAgain, e.splitOn(st, f, x.X, u)
+			}
+		}
+		if u, ok := c.(Union); ok {
+			if _, isConst := x.Y.(*ssa.Const); !isConst {
+				return actAgain, e.splitOn(st, f, x.Y, u)
+			}
+		}
 	}
 	switch x.Op {
 	case token.EQL, token.NEQ:
